@@ -12,11 +12,22 @@ structure CfgItem where
   value : Int          -- Python `int`; `True`/`False` are 1/0
 deriving DecidableEq, Repr
 
+/-- `UbxKeyId.KEY_INFO` as it is when a call is made: (key id, name, signed).  The table is public and an application
+    that uses keys the library does not ship registers them there, so everything below holds for whatever table is in
+    force (an instance argument: it threads itself through); `publishedTable` is the one the source ships. -/
+class KeyTable where
+  entries : List (Nat × String × Bool)
+
+/-- the table generated from the source on this run -/
+def publishedTable : KeyTable := ⟨Gen.publishedKeys⟩
+
 /-- `UbxKeyId.sign(key)`: the `signed` flag of `KEY_INFO[key]`, `False` for unknown keys -/
-def keySigned (key : Nat) : Bool :=
-  match Gen.publishedKeys.find? (fun e => e.1 == key) with
+def keySigned [t : KeyTable] (key : Nat) : Bool :=
+  match t.entries.find? (fun e => e.1 == key) with
   | some e => e.2.2
   | none => false
+
+variable [KeyTable]
 
 /-- `_bits_from_key`: `BITS_FROM_SIZE[(header >> 28) & 0x7]` -/
 def bitsFromKey (key : Nat) : Except Exc Nat :=
